@@ -85,6 +85,11 @@ def apply(self, st, fn, args, kwargs, node):
         return [(st, "val", Top("call:" + fn.tag, fn.input))]
     if fn is None:
         return self.raise_exc(st, "TypeError", node, "none-call", "call of None")
+    if isinstance(fn, Ref) and st.obj(fn).kind == "closure":
+        stub = self.stubs.get("@closure")
+        if stub:
+            return stub(self, st, [fn] + args, kwargs, node)
+        return [(st, "val", Top("closure-call", False))]
     if isinstance(fn, tuple) and fn and fn[0] in ("lambda", "closure", "localclass"):
         stub = self.stubs.get("@closure")
         if stub:
@@ -532,6 +537,10 @@ def call_builtin(self, st, name, args, kwargs, node):
     if name == "callable":
         v = args[0]
         if isinstance(v, (FuncVal, BoundMeth, Builtin, ClassVal)):
+            return [(st, "val", True)]
+        if isinstance(v, Ref) and st.obj(v).kind == "closure":
+            return [(st, "val", True)]
+        if callable(v) and not isinstance(v, type) and not isinstance(v, (Top,)):
             return [(st, "val", True)]
         if v is None or isinstance(v, (str, int)):
             return [(st, "val", False)]
